@@ -29,6 +29,12 @@ CHECKS = {
         text="Seeded histories of absolute/relative seeks, counted reads, buffer reads and read_block on 1-3 file streams, arguments biased to every file boundary; after every operation returned bytes and reported position are compared with a plain byte-array model; fault runs assert exact-or-raises and re-synchronisation by an absolute seek.",
         note="Trusted: harness file encoder and byte model. Offsets aligned to the item size at 16/32 bit. Streams <= 192 samples.",
     ),
+    "C04": dict(
+        level="exploration", ref="DESIGN.md §4 C04",
+        technique="deterministic simulation: seeded put/get histories (write chunking, dtype x depth, close-or-drop, restart = reopen by path, ENOSPC) vs a put/get array model with file-size conservation after every write; ddmin replay",
+        text="Seeded write histories through prep_outfile/cwrite at all six depths with in-memory dtypes independent of the depth, and through to_file/to_tim/to_dat/to_spec/to_fft; after every write the file must grow by exactly the declared width (or the call raised and it did not grow); after dropping all objects the product is re-opened with the matching reader and compared bit-for-bit, with inferred count and tsamp/tstart/dm.",
+        note="Trusted: harness value generator and model. to_fft/to_dat/make_inf write by path (real, fault-free, outside the seam). ENOSPC ends a history.",
+    ),
     "C06": dict(
         level="exploration", ref="DESIGN.md §4 C06",
         technique="deterministic simulation: seeded streaming-reduction runs under two chunkings on a simulated disk with read faults vs in-memory reference definitions; ddmin replay",
